@@ -270,6 +270,44 @@ def extract_unit(repo, unit_dir, out_path, variant=None):
         except rl.LexError as e:
             raise LostAnchor('%s: %s' % (rel, e))
 
+    # R1 (automatic part): items nested directly in an extracted function that the unit file does not name (a new
+    # `const`, helper `fn`, ...) are hoisted too, without contracts, so that such an edit is decided, not undecided.
+    items = list(spec['items'])
+    named = {(i['kind'], i['name']) for i in items}
+    extra = []
+    for it in items:
+        if it['kind'] != 'fn' or not it.get('hoist_auto'):
+            continue
+        rel = it.get('source', spec.get('source'))
+        src, mask = load(rel)
+        a, b = locate(rel, it)
+        text = src[a:b]
+        m2 = mask[a:b]
+        try:
+            _, ob2, cb2 = _fn_header(text, m2, it['name'])
+        except LostAnchor:
+            continue
+        depth = 0
+        pos = ob2 + 1
+        for line in text[ob2 + 1:cb2].split('\n'):
+            mm = re.match(r'\s*(?:pub(?:\([a-z]+\))?\s+)?(const|fn|enum|struct)\s+([A-Za-z_][A-Za-z0-9_]*)', line)
+            if mm and depth == 0 and m2[pos + (len(line) - len(line.lstrip()))]:
+                key = (mm.group(1), mm.group(2))
+                if key not in named and not (key[0] == 'const' and re.match(r'\s*const\s+fn\b', line)):
+                    named.add(key)
+                    extra.append({'kind': key[0], 'name': key[1], 'source': rel, 'within': {'kind': 'fn', 'name': it['name']}, '_auto': True})
+                    it.setdefault('hoist', []).append({'kind': key[0], 'name': key[1]})
+                    log.append({'rule': 'R1 (auto) hoisted an item the unit file does not name', 'item': it['name'], 'hoisted': '%s %s' % key})
+            for i2, ch in enumerate(line):
+                if m2[pos + i2]:
+                    if ch == '{':
+                        depth += 1
+                    elif ch == '}':
+                        depth -= 1
+            pos += len(line) + 1
+    # auto-hoisted items go first (they are definitions the later items use)
+    spec = dict(spec, items=extra + items)
+
     pieces = []  # (header_comment, Segs, rel, fn_name or None)
     for it in spec['items']:
         rel = it.get('source', spec.get('source'))
